@@ -502,9 +502,11 @@ void getOffsetAndCount(const MultiTag &tag, const DataArray &array, const vector
                     if (!ofst) {
                         throw nix::OutOfBounds("util::offsetAndCount:An invalid range was encountered!");
                     }
-                    temp_offset[i] = *ofst;
+                    data_offset[dim_index] = *ofst;
+                } else {
+                    throw nix::OutOfBounds("util::offsetAndCount:An invalid range was encountered!");
                 }
-            }   
+            }
         }
         offsets.push_back(data_offset);
         counts.push_back(data_count);
